@@ -23,5 +23,36 @@ PROPS = {
     },
 }
 
+PROPS["C13"] = {
+    "lean": ["MysyncProofs.C13"],
+    "go": [("internal/mysql/gtids", "^TestVerifC13"), ("internal/app", "^TestVerifC14$")],
+    "level": "proof",
+    "components": ["MysyncModel/Gtid.lean (intervalSliceMinus, mysqlGTIDSetMinus, GTIDDiff, IsSlaveBehindOrEqual, IsSlaveAhead, IsSplitBrained; go-mysql Contain/Equal/Update/String modelled)",
+                   "MysyncModel/Select.lean (findMostRecentNodeAndDetectSplitbrain, detectSplitbrain)"],
+    "trusted": ["T6 go-mysql library code is modelled, not verified: MysqlGTIDSet.{Contain,Equal,Update,String}, IntervalSlice.{Normalize,Contain}, ParseMysqlGTIDSet (the harness feeds the PARSED structure to the model and compares every library result too)",
+                "two-level map[uuid]map[tag] modelled as one association list keyed by (uuid, tag) (validated on tagged sets)"],
+    "rule": "all ordered pairs of GTID sets over small universes (quick: 2 keys x GNO 1-3 and 3 keys incl. a tagged one x GNO 1-2; thorough: 2x4, 3x3, 4x2) exhaustively, random gapped sets over 4 keys x GNO 1-20 with subset/superset/equal bias, random range-written sets with adjacent intervals; all pairs of interval lists over 7 (9) transaction numbers; lists of 0-5 positions (see C14). distinct = distinct input; non-trivial = both sets non-empty (lists: >= 2 positions)",
+    "exhaustive_note": "the small universes are enumerated completely; they validate the model, the unbounded claim is the theorem",
+    "assumptions": ["sets are what ParseGtidSet produces (normalised, non-empty interval lists): hypothesis WF, checked on every trace record"],
+    "min_lines": 20000,
+    "level_text": "Theorems for all well-formed GTID sets (any number of uuids, tags, intervals): Contain = set inclusion, behind/ahead, interval subtraction = set difference (two-pointer loop, by induction), GTIDDiff classification, split-brain soundness and completeness, most-recent = maximal element or split brain iff none exists. Correspondence: every function incl. the library ones compared with the model exhaustively on small universes and on random large sets, plus an independent bitset reference.",
+    "level_note": "Trusted: Lean kernel; go-mysql's parser/Contain/Equal/Normalize are modelled and differential-checked, not verified; the Go harness and replay tool.",
+    "technique": "Lean 4 proof (induction over interval lists / association lists) + exhaustive differential check of the model against the Go functions",
+}
+PROPS["C14"] = {
+    "lean": ["MysyncProofs.C14"],
+    "go": [("internal/app", "^TestVerifC14$")],
+    "level": "proof",
+    "components": ["MysyncModel/Select.lean (getMostPriorityNode, getMostDesirableNode with fuel, filterOutNodeFromPositions)"],
+    "trusted": ["T8 float64 lags modelled as Int seconds (the code only compares and subtracts; harness lags are whole seconds)",
+                "T6 go-mysql Contain/Equal modelled (see C13)"],
+    "rule": "all lists of 0-2 (thorough 0-3) candidates over 4 sets x 4 lags around the bound x 3 priorities x 3 bounds, each with and without a from-host; random lists of 0-5 over 9 sets (chains and incomparable), 7 lags incl. unknown=99999999, priorities 0-3, bounds {0,1,60,100}. distinct = distinct (list, bound, from); non-trivial = at least two candidates",
+    "assumptions": ["bound >= 0 (a negative priority_choice_max_lag makes the Go recursion non-terminating; the property excludes it)"],
+    "min_lines": 20000,
+    "level_text": "Theorems for all candidate lists and all non-negative bounds: termination of the recursion (fuel = length+1 never runs out), membership, error iff empty, never the from-host, top within bound is chosen, otherwise top or much fresher, top has maximal priority, ties prefer superset then lag, equal priorities coincide with most-recent. Correspondence: real getMostDesirableNode/getMostPriorityNode vs model exhaustively for short lists and randomly beyond.",
+    "level_note": "Trusted: Lean kernel; float lag arithmetic modelled over Int; harness and replay tool.",
+    "technique": "Lean 4 proof (fold invariants, well-founded recursion via fuel) + differential check against the Go functions",
+}
+
 _todo = "machinery for this property is not built yet in this round; planned per DESIGN.md §7/§10 (no claim is made until its check exists)"
 NOT_APPLICABLE = {("C%02d" % i): _todo for i in range(1, 21)}
